@@ -9,7 +9,7 @@
        pointing into the selected events (spec_pairs).
    crit_of gives the documented (source, event) criterion of a method tree; an
    intersection qualifies a pair when both parts do. *)
-From Coq Require Import ZArith List Bool Sorting.Sorted.
+From Coq Require Import ZArith List Bool Sorting.Sorted Permutation.
 From Sky Require Import M_Select.
 Import ListNotations.
 Local Open Scope nat_scope.
@@ -85,3 +85,55 @@ Definition cix {S E} (m : meth S E) (inc : option tbl) (srcs : list S) (evs : li
 (* instances used by the non-vacuity examples of props/Prop_C05.v *)
 Definition ex_c (s e : Z) : bool := (Z.abs (e - s) <? 3)%Z.
 Definition ex_rev (l : list Z) : list Z := rev (map Z.of_nat (seq 0 (length l))).
+
+(* ---- deepening: PsiFunc guard, the trial data manager as a state machine *)
+
+(* does the tree contain a PsiFunc method; the side conditions of wf_meth other than
+   "PsiFunc only with one source" *)
+Fixpoint has_psi {S E} (m : meth S E) : bool :=
+  match m with
+  | MPsi _ => true
+  | MAnd a b => has_psi a || has_psi b
+  | _ => false
+  end.
+
+Fixpoint wf_other {S E} (m : meth S E) : Prop :=
+  match m with
+  | MBox bs cra crab _ => (0 < bs)%Z /\ (forall s e, crab s e = cra s e)
+  | MAnd a b => wf_other a /\ wf_other b
+  | _ => True
+  end.
+
+(* grouped by ascending source *)
+Definition src_grouped (t : tbl) : Prop :=
+  Sorted.StronglySorted (fun p q => (fst p <= fst q)%Z) t.
+
+(* the criterion initialize_trial applies: the method's, or "every pair" without a method *)
+Definition crit_opt {S E} (m : option (meth S E)) (srcs : list S) (evs : list E) : nat -> nat -> bool :=
+  match m with
+  | Some m' => cidx (crit_of m' (length srcs)) srcs evs
+  | None => cidx (fun _ _ => true) srcs evs
+  end.
+
+Definition wf_opt {S E} (m : option (meth S E)) (ns : nat) : Prop :=
+  match m with Some m' => wf_meth m' ns | None => True end.
+
+(* what holds of the events and the table a TrialDataManager stores after initialize_trial
+   (argsort: the sorting permutation used for the index field; c: the pair criterion;
+   b: an index field is set).  orig2 lists the original index of every stored event. *)
+Definition tdm_post {E} (argsort : list E -> list Z) (ns : nat) (c : nat -> nat -> bool)
+           (b : bool) (evs ev2 : list E) (t2 : tbl) : Prop :=
+  let quals := filter (fun j => existsb (fun k => c k j) (seq 0 ns)) (seq 0 (length evs)) in
+  exists orig2,
+    Permutation orig2 quals
+    /\ (b = false -> orig2 = quals)
+    /\ Forall2 (fun e j => nth_error evs j = Some e) ev2 orig2
+    /\ (b = true -> exists ev1,
+          Forall2 (fun e j => nth_error evs j = Some e) ev1 quals
+          /\ Forall2 (fun e z => nth_error ev1 (Z.to_nat z) = Some e) ev2 (argsort ev1))
+    /\ src_grouped t2
+    /\ NoDup t2
+    /\ (forall q, In q t2 -> (0 <= fst q < Z.of_nat ns)%Z /\ (0 <= snd q < Z.of_nat (length ev2))%Z)
+    /\ (forall k p, In (Z.of_nat k, Z.of_nat p) t2 <->
+          k < ns /\ exists j, nth_error orig2 p = Some j /\ c k j = true)
+    /\ (forall p, p < length ev2 -> exists k, In (Z.of_nat k, Z.of_nat p) t2).
